@@ -1,6 +1,6 @@
 """Property -> rules table (DESIGN §4.0)."""
 
-RULE_MODULES = ["r_ack", "r_quota", "r_key", "r_exits", "r_flow", "r_poll", "r_panic"]
+RULE_MODULES = ["r_ack", "r_quota", "r_key", "r_exits", "r_flow", "r_poll", "r_panic", "r_codec_tx", "r_codec_rx"]
 
 TRUST = [
     "rustc nightly builds mir_built faithfully from the working tree (same front end as the real build)",
@@ -118,5 +118,23 @@ PROPS = {
                        "handle operations await only their own oneshot receiver; write futures are awaited in place; the stream adapter forwards Pending from the inner receiver.",
         "not_decided": "trace equality across polling disciplines (executions under different schedulers); idempotence of the buffer bookkeeping of RxPacketStream under a spurious poll (runtime state)",
         "assumptions": TRUST,
+    },
+    "C01": {
+        "rules": ["LM", "ORDER", "BITS", "IDS", "LEGAL", "MANDATORY", "SETTER", "WRITE", "MSGKIND", "VARINT-THRESH", "REGISTRATION"],
+        "explanation": "Encoder structure on MIR, for all optional fields / packet types / call sites at once: length mirror (every field written is counted in the remaining / property length it belongs to and vice versa, every counted length prefix is written, "
+                       "measured types = written types), item order against the standard, bit layouts of the flag bytes, evaluated packet / property identifiers and fixed headers, legal property sets, mandatory parts (generated build() + validate() error paths), "
+                       "option setters forward to the builder field of the same name and return Self, single writer (write_all over the whole slice, awaited in place), one encode per message buffer, exactly one write per non-refused request, VarSizeInt thresholds.",
+        "not_decided": "that decoding the bytes yields exactly the values supplied for every value (round-trip equality over runtime values, boundary lengths 127/128/16383/...): primitives are covered by the existing boundary tests, the composition is what the rules decide",
+        "assumptions": TRUST,
+        "filters": {"LEGAL": r"LEGAL:tx:", "MANDATORY": r"Tx|floor"},
+    },
+    "C02": {
+        "rules": ["LEGAL", "IDS", "REASONS", "DEFAULTS", "MANDATORY", "SHORTFORM", "MULTI", "ACCESSOR", "PUBID", "BITS"],
+        "explanation": "Decoder structure on MIR: accepted property set per receive decoder = the standard's legal set (order-free property loop), wire type per property identifier, reason enums = TryFrom<u8> maps = the standard's code sets, "
+                       "defaults of absent properties, mandatory parts of inbound packets, shortened forms (tail decodes do not dominate every success exit), multiplicity (collections for repeatable properties), "
+                       "accessors read exactly the field they are named after, PUBLISH header masks / shifts, packet identifier iff QoS > 0.",
+        "not_decided": "numeric / value equality of decoded primitives over all inputs, UTF-8 handling, payloads crossing the receive buffer (runtime values; primitives have boundary tests)",
+        "assumptions": TRUST,
+        "filters": {"LEGAL": r"LEGAL:rx:|floor", "MANDATORY": r"Rx|floor", "BITS": r"publish-decode|type-nibble|floor"},
     },
 }
